@@ -4,6 +4,7 @@ PacketScanObsTrace / AppScanObsTrace for cancel-point replay on the real code.""
 import os
 import vf
 from checks import c07, c08, c16
+from checks import wire_tier as wt
 
 LEVEL = "model_checking"
 LEVEL_TEXT = ("TLC checks the goroutine-level models of the packet pipeline, the application engine + runner and the receiver with an "
@@ -41,6 +42,9 @@ def run(ctx):
     n3, _ = vf.validate_runs(ctx, "PacketScanObsTrace", ta, keyfn=c07.keyfn, label="packet engine under startScanEngine, cancel points", timeout=3000)
     vf.validate_runs(ctx, "RunnerTrace", tb, keyfn=c16.keyfn, label="runner timing under cancel")
     ctx.count(0, [("run", i) for i in range(n1 + n2 + n3)])
+    # socket-level tier: SIGINT to the real binary mid-scan and during the exit delay; no run of any scenario may crash or hang
+    n4, rej = wt.run_wire(ctx, label="c12w", focus="clean")
+    wt.report(ctx, "C12", rej)
     for t in (t1, t2):
         for r0 in vf.split_runs(vf.read_ndjson(t))[1:3]:
             ctx.sample(r0[:40])
